@@ -10,7 +10,7 @@ from extract import LostAnchor, Spec, build_unit, map_line, count_clauses
 
 # Messages with which Verus reports a *semantic* failure of a proof obligation. Anything
 # else (syntax, type, mode, unsupported construct, internal error) is a tool problem -> undecided.
-SEMANTIC = re.compile(r"postcondition not satisfied|precondition not satisfied|assertion failed|possible arithmetic underflow/overflow|"
+SEMANTIC = re.compile(r"postcondition not satisfied|precondition not satisfied|assertion failed|requires not satisfied|possible arithmetic underflow/overflow|"
                       r"invariant not satisfied|decreases not satisfied|possible division by zero|possible bit shift|"
                       r"could not prove termination|unreachable|possible overflow|failed to prove|proof block|recommendation not met|"
                       r"bit.vector|nonlinear|by \(compute\)|index out of bounds|may be out of bounds|cannot show|value may be out of range|"
